@@ -116,7 +116,16 @@ func (ex *Exec) provAddr(p ProvInt) *Term {
 		base := ex.c64(int64(p.P.B.id) << 32)
 		return ts.BvBin(OAdd, ts.BvBin(OAdd, base, p.P.Off), p.Add)
 	case p.P.S != nil:
-		panic(abortPath{"address of slot used as integer"})
+		// slots get fake, distinct, non-zero addresses (only equality/ordering of such integers is meaningful)
+		if ex.slotIDs == nil {
+			ex.slotIDs = map[*V]int64{}
+		}
+		id, ok := ex.slotIDs[p.P.S]
+		if !ok {
+			id = int64(len(ex.slotIDs) + 1)
+			ex.slotIDs[p.P.S] = id
+		}
+		return ts.BvBin(OAdd, ex.c64(1<<48+id<<12), p.Add)
 	}
 	return p.Add
 }
@@ -390,7 +399,19 @@ func (ex *Exec) strTerm(s StrV) *Term {
 	}
 	// concrete strings become distinct named constants of the Str sort
 	name := "strlit_" + sanitize(s.S)
-	return ex.ts.Var(name, sortStr)
+	t := ex.ts.Var(name, sortStr)
+	if p := ex.path; p != nil {
+		if p.strlits == nil {
+			p.strlits = map[string]*Term{}
+		}
+		if _, ok := p.strlits[name]; !ok {
+			for _, o := range p.strlits {
+				ex.sol.Assert(ex.ts.Not(ex.ts.Eq(t, o))) // distinct literals denote distinct strings
+			}
+			p.strlits[name] = t
+		}
+	}
+	return t
 }
 
 func sanitize(s string) string {
